@@ -6,10 +6,11 @@ import numpy as np
 from .. import alph
 from .. import genhkl as G
 from .. import oracles as O
-from ..core import CaseResult, bind_repo
+from ..core import CaseResult, bind_repo, twice
 
 PROP = "C06"
 LEVEL = "exploration"
+SECOND_SCHEDULE = 0  # stride of the reverse-order history pass (0 = off, 1 = every case)
 RULE = ("same space as C05 with complementary shells: 237 settings x conforming cells x shells x both modules x output_stl True/False; "
         "genhkl_unique rows must lie in pairwise different Laue orbits (point-group rotations and inversion, integer arithmetic), the "
         "set of their orbits must equal the set of orbits of the brute-force allowed list, the union of the orbits must equal "
@@ -31,7 +32,7 @@ def cases(tier, seed):
         g = sg.sg(sgno=no, cell_choice=cc)
         for ci, cell in enumerate(alph.conforming_cells(g.crystal_system, g.cell_choice, tier)):
             for mod in ("tools", "laue"):
-                cs.append({"mod": mod, "no": no, "cc": cc, "cell": cell, "tier": tier})
+                cs.append({"mod": mod, "no": no, "cc": cc, "cell": cell, "tier": tier, "far": mod == "tools" or ci == 0})
     return cs
 
 
@@ -48,19 +49,36 @@ def check_case(case):
     orc = G.Oracle(g, cell, max(s[1] for s in shells))
     Gi = O.recip_metric(cell)
     base = "%s:Sg%d/%s:cell=%s" % (case["mod"], no, cc, cell)
-    for (t0, t1) in shells:
-        smin, smax = orc.bound(t0), orc.bound(t1)
+    if not case.get("far", True):
+        shells = shells[:-1]  # the far-out thin shell is run for xfab.laue on the first cell of each setting only (C14 compares the modules)
+    bounds = [(orc.bound(t0), orc.bound(t1)) for (t0, t1) in shells]
+    vals = np.unique(np.round(orc.s[~orc.ext], 10))
+    if len(vals) > 8:  # bounds 5e-9 (relative) below / above lattice-point values (see C05)
+        u, v = float(vals[len(vals) // 9]), float(vals[len(vals) // 4])
+        bounds += [(u * (1 - 5e-9), v * (1 - 5e-9)), (u * (1 + 5e-9), v * (1 + 5e-9))]
+    for bi, (smin, smax) in enumerate(bounds):
         ref = orc.allowed(smin, smax)
-        key = "%s:shell=(%.6f,%.6f]" % (base, smin, smax)
+        key = "%s:shell=(%.12g,%.12g]" % (base, smin, smax)
         np.random.seed(0)
+        if bi == len(bounds) - 1:
+            try:
+                # history probe: call; the caller edits the array it got in place (e.g. turns sintl into d-spacing); call again
+                twice(r, key + ":unique", mod.genhkl_unique, cell, smin, smax, sgno=no, cell_choice=cc, output_stl=True)
+                twice(r, key + ":unique3", mod.genhkl_unique, cell, smin, smax, sgno=no, cell_choice=cc)
+            except Exception:
+                pass
         U4, err = G.call_lib(mod.genhkl_unique, cell, smin, smax, sgno=no, cell_choice=cc, output_stl=True)
         if err:
             r.evals += 1
             r.violation(key + ":exception", "genhkl_unique raised on a valid input", None, err)
             continue
-        U3, err3 = G.call_lib(mod.genhkl_unique, cell, smin, smax, sgno=no, cell_choice=cc, output_stl=False)
         A4, erra = G.call_lib(mod.genhkl_all, cell, smin, smax, sgno=no, cell_choice=cc, output_stl=True)
-        A3, erra3 = G.call_lib(mod.genhkl_all, cell, smin, smax, sgno=no, cell_choice=cc)
+        if smin > 0.8:  # far-out shell: the 3-column variants are exercised on the other shells
+            U3, err3 = (np.asarray(U4, float)[:, :3] if U4 is not None and len(U4) else U4), None
+            A3, erra3 = (np.asarray(A4, float)[:, :3] if A4 is not None and len(A4) else A4), None
+        else:
+            U3, err3 = G.call_lib(mod.genhkl_unique, cell, smin, smax, sgno=no, cell_choice=cc, output_stl=False)
+            A3, erra3 = G.call_lib(mod.genhkl_all, cell, smin, smax, sgno=no, cell_choice=cc)
         if err3 or erra or erra3:
             r.violation(key + ":exception", "genhkl_* raised on a valid input", None, err3 or erra or erra3)
             continue
@@ -76,30 +94,31 @@ def check_case(case):
         if len(arows):
             r.require(np.array_equal(np.asarray(A3, float)[np.lexsort(np.asarray(A3, float).T[::-1])], A4[:, :3][np.lexsort(A4[:, :3].T[::-1])]),
                       key + ":cols-all", "genhkl_all: 3-column output = first three columns of the 4-column output (as multisets)")
-        # families
-        fams = [orc.family(h) for h in urows]
-        dup = len(set(fams)) != len(fams)
+        # families (vectorised exact integer arithmetic)
+        ukeys = orc.family_keys(np.array(urows, dtype=np.int64).reshape(-1, 3))
+        dup = len(set(ukeys.tolist())) != len(ukeys)
         r.require(not dup, key + ":one-per-family", "genhkl_unique rows lie in pairwise different Laue families", None,
-                  [h for i, h in enumerate(urows) if fams[i] in fams[:i]][:5])
-        reff = {}
-        for h in ref:
-            reff.setdefault(orc.family(h), h)
-        missing = [min(f) for f in set(reff) - set(fams)]
-        extra = [h for h, f in zip(urows, fams) if f not in reff]
+                  [urows[i] for i in range(len(urows)) if ukeys[i] in set(ukeys[:i].tolist())][:5] if dup else None)
+        refH = np.array(sorted(ref), dtype=np.int64).reshape(-1, 3)
+        rkeys = set(orc.family_keys(refH).tolist())
+        missing = [orc.decode(k) for k in sorted(rkeys - set(ukeys.tolist()))]
+        extra = [urows[i] for i in range(len(urows)) if int(ukeys[i]) not in rkeys]
+        reff = rkeys
         r.evals += 1
         if missing or extra:
             r.violation(key + ":families", "genhkl_unique = exactly one member of every Laue family of allowed reflections",
-                        {"families": len(reff)}, {"rows": len(urows), "missing_families": sorted(missing)[:12], "n_missing": len(missing),
+                        {"families": len(reff)}, {"rows": len(urows), "missing_families": missing[:12], "n_missing": len(missing),
                                                   "extra_rows": extra[:6], "n_extra": len(extra)})
         # genhkl_all is the union of the families of genhkl_unique
-        union = {}
-        for f in set(fams):
-            for h in f:
-                union[h] = union.get(h, 0) + 1
+        if len(urows):
+            im = orc.images(np.array(urows, dtype=np.int64)).reshape(-1, 3)
+            union = {tuple(x) for x in np.unique(im, axis=0).tolist()}
+        else:
+            union = set()
         amulti = {}
         for h in arows:
             amulti[h] = amulti.get(h, 0) + 1
-        r.require(amulti == {h: 1 for h in union}, key + ":union", "genhkl_all = union of the families of genhkl_unique, each reflection once",
+        r.require(set(amulti) == union and all(v == 1 for v in amulti.values()), key + ":union", "genhkl_all = union of the families of genhkl_unique, each reflection once",
                   {"union": len(union)}, {"all_rows": len(arows), "distinct": len(amulti), "not_in_union": [h for h in amulti if h not in union][:5],
                                           "missing_from_all": [h for h in union if h not in amulti][:5]})
         # ordering and fourth column
